@@ -46,11 +46,15 @@ func c01RFailOps(tier string) []*eng.Op {
 		mkOp("rollback", 0, eng.Flags{Version: 1, MaxHistory: 2}),
 		mkOp("install", 7, eng.Flags{Replace: true}, "a", "c"),
 		mkOp("uninstall", 0, eng.Flags{}),
+		// round 6 (the read handlers of NESTED runs are inside the model, Engine/OpsR.v): a failing atomic upgrade - the
+		// history read of its recovery and every read of the rollback it starts, its last lookup included - and a failing
+		// atomic install --replace - the history read of the uninstall it starts
+		c01WaitFail(mkOp("upgrade", 7, eng.Flags{Atomic: true, MaxHistory: 3}, "a", "c")),
+		c01WaitFail(mkOp("install", 7, eng.Flags{Replace: true, Atomic: true}, "a", "c")),
 	}
 	if tier == "thorough" {
 		ops = append(ops,
 			mkOp("upgrade", 7, eng.Flags{MaxHistory: 1}, "a", "c"),
-			c01WaitFail(mkOp("upgrade", 7, eng.Flags{Atomic: true, MaxHistory: 3}, "a", "c")),
 			c01WaitFail(mkOp("upgrade", 7, eng.Flags{MaxHistory: 2}, "a", "c")),
 			mkOp("rollback", 0, eng.Flags{}),
 			mkOp("rollback", 0, eng.Flags{MaxHistory: 1}),
